@@ -213,7 +213,7 @@ def _textbook_variance_is_refuted(env, cfg):
 K_EXPLAINER = 16      # |importance_hat - importance| <= K * u * max|contribution| after two explained observations
 
 
-def _mk_explainer(cls_name, losses):
+def _mk_explainer(cls_name, losses, dynamic=False, alpha=None, keep_variance=False):
     from ixai.explainer import IncrementalPFI, IncrementalSage
     from ixai.imputer import DefaultImputer
     from ixai.storage import BatchStorage
@@ -225,9 +225,11 @@ def _mk_explainer(cls_name, losses):
     def loss(y_true, y_pred):
         return next(it)
     cls = IncrementalPFI if cls_name == 'IncrementalPFI' else IncrementalSage
+    kw = {} if alpha is None else {'smoothing_alpha': alpha}
     ex = cls(model, loss, ['f'], storage=BatchStorage(), imputer=DefaultImputer(model, {'f': 0.0}), n_inner_samples=1,
-             dynamic_setting=False)
-    ex._variance_trackers.update = lambda values: None     # not part of this obligation (keeps the rounding terms few)
+             dynamic_setting=dynamic, **kw)
+    if not keep_variance:
+        ex._variance_trackers.update = lambda values: None     # not part of this obligation (keeps the rounding terms few)
     return ex
 
 
